@@ -58,6 +58,7 @@ opkinds! {
     NewLeaf = 26, 1;       // (p)
     TouchLeaf = 27, 1;     // (p)
     DropLeaf = 28, 1;      // (p)
+    AdoptLeaf = 97, 3;     // (path, p, q): p.leaf = q.leaf (a non-tracing object as the CHILD) after a raw barrier: 1 backward(p, leaf) 2 backward(p) 3 forward(p, leaf) 4 forward(None, leaf)
     LeafBarrier = 80, 3;   // (path, p, c): raw barrier with the non-tracing leaf of p as parent and node c as child
     SetWeakLeaf = 81, 2;   // (p, q): p.wl = downgrade(q.leaf)
     ClearWeakLeaf = 82, 1; // (p)
@@ -66,6 +67,8 @@ opkinds! {
     // ---- dynamic roots (C14) ----
     Stash = 29, 3;         // (hi, c, set)
     CloneH = 30, 2;        // (from, to)
+    StashLeaf = 98, 3;     // (hi, p, set): stash p's leaf (an object of a type that needs no tracing)
+    DropHL = 99, 1;        // (hi): drop a leaf handle
     CloneFromH = 92, 2;    // (from, to): `to` is an EXISTING handle: hs[to].clone_from(&hs[from])
     DropH = 31, 1;         // (hi)
     FetchRoot = 32, 2;     // (hi, r)
@@ -142,7 +145,7 @@ impl Op {
     pub fn is_mutator(self) -> bool {
         !self.is_collector()
             && !self.is_fin()
-            && !matches!(self.k, K::CloneH | K::CloneFromH | K::DropH | K::PDropH | K::AdjustDebt | K::SetPacing | K::DropArena | K::PresentForeign)
+            && !matches!(self.k, K::CloneH | K::CloneFromH | K::DropH | K::DropHL | K::PDropH | K::AdjustDebt | K::SetPacing | K::DropArena | K::PresentForeign)
     }
     pub fn parse(s: &str) -> Option<Op> {
         // "Name(a,b)" or "Name" or "w1:Name(a)"
